@@ -18,7 +18,7 @@ META = {
         "thorough": {"evaluations": 2000000, "mon.lca": 500000, "mon.rmq": 500000, "mon.insitu_lca": 10000},
     },
     "exhaustive": {"quick": True, "thorough": True},
-    "space": {"quick": "all rooted ordered trees <=6 nodes; all arrays over {0,1,2} up to length 7, all ranges", "thorough": "all rooted ordered trees <=8 nodes; all arrays over {0,1,2} up to length 9, all ranges (incl. empty and reversed)"},
+    "space": {"quick": "all rooted ordered trees <=6 nodes; all arrays over {0,1,2} up to length 8, all ranges", "thorough": "all rooted ordered trees <=8 nodes; all arrays over {0,1,2} up to length 10, all ranges (incl. empty and reversed)"},
     "assumptions": ["R-TREE parent-chain definitions"],
     "timeout": {"quick": 420, "thorough": 3600},
 }
@@ -28,7 +28,7 @@ def plan(tier, seed):
     n = 16
     q = tier == "quick"
     specs = [{"kind": "trees", "i": i, "n": n, "maxnodes": 6 if q else 8, "nrand": 6 if q else 60} for i in range(n)]
-    specs += [{"kind": "rmq", "i": i, "n": n, "maxlen": 7 if q else 9, "nrand": 50 if q else 400} for i in range(n)]
+    specs += [{"kind": "rmq", "i": i, "n": n, "maxlen": 8 if q else 10, "nrand": 50 if q else 400} for i in range(n)]
     specs += [{"kind": "insitu", "i": i, "count": 4 if q else 40} for i in range(4)]
     return specs
 
@@ -286,6 +286,10 @@ def run(ctx, spec):
             n = rng.randint(10, 70)
             arr = [rng.randint(-5, 5) for _ in range(n)] if rng.random() < 0.7 else [(rng.randint(0, 3), rng.randint(0, 9)) for _ in range(n)]
             ranges = [(rng.randint(0, n), rng.randint(0, n)) for _ in range(200)]
+            # every range whose length is a power of two or one off it (sparse-table level boundaries), and the full array
+            for ln in (1, 2, 3, 4, 7, 8, 9, 15, 16, 17, 31, 32, 33, 63, 64, 65):
+                ranges += [(i, i + ln) for i in range(0, n - ln + 1)]
+            ranges.append((0, n))
             check_rmq(ctx, arr, ranges)
     else:
         from rv import gen
